@@ -1,6 +1,7 @@
 (* C14 — property theorems (statements only; proofs are in C14/Proofs.v) *)
 From Coq Require Import ZArith QArith List Bool.
-From PPV Require Import Base.QN C14.Model C14.Proofs.
+From Coq Require Import String.
+From PPV Require Import Base.QN Base.Out C14.Model C14.Proofs C14.Write C14.WriteProofs.
 Import ListNotations.
 
 (* the reported maximum is the maximum over the converged cases in which the element is in service
@@ -44,3 +45,105 @@ Theorem C14_old_cause_refuted :
   exists l, ~ attains l (cause (run_col_old true l acc0)) (mx (run_col_old true l acc0)).
 Proof. exact old_cause_refuted. Qed.
 Print Assumptions C14_old_cause_refuted.
+
+(* ======== table level: whole run_contingency with the evaluation function as an input (C14/Write.v) ======== *)
+Open Scope string_scope.
+
+(* N-0 = plain power flow: whatever outages are listed, whichever of them raise, and whatever the min/max fold
+   accumulated, the <var> entry of every returned table dict is the result of the evaluation made after the
+   N-1 loop (call number n_evals = number of in-service listed outages) on the INITIAL in_service flags ins0
+   (no outage), and the flags are ins0 again afterwards *)
+Theorem C14_n0_is_plain_pf : forall ev lims outs tabs ins0 r,
+  run_contingency_m ev lims outs tabs ins0 = Some r ->
+  exists v0, ev (n_evals outs ins0) ins0 = Some v0 /\ r_ins r = ins0 /\
+    forall i ts d, nth_error tabs i = Some ts -> nth_error (r_dicts r) i = Some d ->
+      dget d (t_var ts) = Some (map ooq (slice (t_off ts) (t_len ts) v0)).
+Proof. exact n0_is_plain_pf. Qed.
+Print Assumptions C14_n0_is_plain_pf.
+
+(* for an evaluation function that is a function of the net state, the N-0 entries do not depend on the N-1 case
+   list or the limits at all *)
+Theorem C14_n0_independent_of_cases : forall (ev : evalT) lims lims' outs outs' tabs ins0 r r',
+  (forall k k' l, ev k l = ev k' l) ->
+  run_contingency_m ev lims outs tabs ins0 = Some r ->
+  run_contingency_m ev lims' outs' tabs ins0 = Some r' ->
+  forall i ts d d', nth_error tabs i = Some ts ->
+    nth_error (r_dicts r) i = Some d -> nth_error (r_dicts r') i = Some d' ->
+    dget d (t_var ts) = dget d' (t_var ts).
+Proof. exact n0_independent_of_cases. Qed.
+Print Assumptions C14_n0_independent_of_cases.
+Example C14_n0_is_plain_pf_nonvacuous :
+  exists r d, run_contingency_m ex_ev ex_lims ex_outs ex_tabs ex_ins = Some r /\
+    n_evals ex_outs ex_ins = 3%nat /\ List.length (r_trace r) = 4%nat /\
+    nth_error (r_dicts r) 0 = Some d /\
+    dget d "loading_percent" = Some [OQ 40 1; OQ 40 1; OQ 0 1] /\
+    dget d "max_loading_percent" = Some [ONone; OQ 30 1; ONone].
+Proof. exact n0_is_plain_pf_nonvacuous. Qed.
+
+(* write_to_net, for ANY res table t and ANY dict d with distinct keys (python dicts have distinct keys;
+   C14_result_dict_keys_nodup shows it for the model's dict):
+   (1) exactly the listed keys (all keys except "index" and the names already present) become new columns, in dict order *)
+Theorem C14_write_columns_exact : forall d t, NoDup (map fst d) ->
+  map fst (write_table t d) = (map fst t ++ listed t d)%list.
+Proof. exact write_columns. Qed.
+Print Assumptions C14_write_columns_exact.
+Theorem C14_write_only_listed : forall t d c, NoDup (map fst d) ->
+  has_col (write_table t d) c = true -> has_col t c = true \/ In c (listed t d).
+Proof. exact write_only_listed. Qed.
+Print Assumptions C14_write_only_listed.
+(* (2) frame: the table before is a prefix of the table afterwards: every pre-existing column (also one whose name
+   is a key of the dict, e.g. loading_percent, vm_pu or a stale max_loading_percent) keeps position, name and values *)
+Theorem C14_write_frame_prefix : forall t d, firstn (List.length t) (write_table t d) = t.
+Proof. exact write_frame_prefix. Qed.
+Print Assumptions C14_write_frame_prefix.
+Theorem C14_write_frame : forall t d c, has_col t c = true -> tget (write_table t d) c = tget t c.
+Proof. exact write_frame. Qed.
+Print Assumptions C14_write_frame.
+(* (3) the values of a written column are the dict entry *)
+Theorem C14_write_values : forall d t k v, NoDup (map fst d) -> In (k, v) d -> k <> "index" -> has_col t k = false ->
+  tget (write_table t d) k = Some v.
+Proof. exact write_values. Qed.
+Print Assumptions C14_write_values.
+Theorem C14_result_dict_keys_nodup : forall ts cases n0,
+  t_var ts = "loading_percent" \/ t_var ts = "vm_pu" -> NoDup (map fst (result_dict ts cases n0)).
+Proof. exact result_dict_keys_nodup. Qed.
+Print Assumptions C14_result_dict_keys_nodup.
+
+(* the documented columns (docstring of run_contingency): a branch table that has loading_percent and none of the
+   five names gets exactly these five, a bus table max_vm_pu/min_vm_pu; without any successful N-1 case no max_/min_ *)
+Theorem C14_written_columns_branch : forall ts c cases n0 t,
+  t_bus ts = false -> t_var ts = "loading_percent" -> has_col t "loading_percent" = true ->
+  (forall k, In k (branch_keys ++ ["max_loading_percent"; "min_loading_percent"])%list -> has_col t k = false) ->
+  map fst (write_table t (result_dict ts (c :: cases) n0)) =
+  (map fst t ++ ["causes_overloading"; "cause_element"; "cause_index"; "max_loading_percent"; "min_loading_percent"])%list.
+Proof. exact written_columns_branch. Qed.
+Print Assumptions C14_written_columns_branch.
+Theorem C14_written_columns_bus : forall ts c cases n0 t,
+  t_bus ts = true -> t_var ts = "vm_pu" -> has_col t "vm_pu" = true ->
+  (forall k, In k ["max_vm_pu"; "min_vm_pu"] -> has_col t k = false) ->
+  map fst (write_table t (result_dict ts (c :: cases) n0)) = (map fst t ++ ["max_vm_pu"; "min_vm_pu"])%list.
+Proof. exact written_columns_bus. Qed.
+Print Assumptions C14_written_columns_bus.
+Theorem C14_written_columns_no_case : forall ts n0 t,
+  t_bus ts = false -> t_var ts = "loading_percent" -> has_col t "loading_percent" = true ->
+  (forall k, In k branch_keys -> has_col t k = false) ->
+  map fst (write_table t (result_dict ts [] n0)) = (map fst t ++ branch_keys)%list.
+Proof. exact written_columns_no_case. Qed.
+Print Assumptions C14_written_columns_no_case.
+(* the written max_loading_percent column is the aggregated maximum of C14_max_is_spec_max / C14_table_is_columns *)
+Theorem C14_written_max_is_fold : forall ts c cases n0 t,
+  t_bus ts = false -> t_var ts = "loading_percent" -> has_col t "max_loading_percent" = false ->
+  tget (write_table t (result_dict ts (c :: cases) n0)) "max_loading_percent" =
+  Some (map (fun a => ooq (mx a)) (run_table (t_len ts) (tab_cases ts (c :: cases)))).
+Proof. exact written_max_is_fold. Qed.
+Print Assumptions C14_written_max_is_fold.
+Example C14_write_frame_nonvacuous :
+  exists r d, run_contingency_m ex_ev ex_lims ex_outs ex_tabs ex_ins = Some r /\ nth_error (r_dicts r) 0 = Some d /\
+    map fst (write_table ex_table d) =
+      ["loading_percent"; "p_from_mw"; "cause_index"; "causes_overloading"; "cause_element"; "max_loading_percent"; "min_loading_percent"] /\
+    listed ex_table d = ["causes_overloading"; "cause_element"; "max_loading_percent"; "min_loading_percent"] /\
+    tget (write_table ex_table d) "cause_index" = Some [OZ 7; OZ 7; OZ 7] /\
+    dget d "cause_index" = Some [OZ (-1); OZ 5; OZ (-1)] /\
+    tget (write_table ex_table d) "loading_percent" = Some [OZ 1; OZ 2; OZ 3] /\
+    tget (write_table ex_table d) "causes_overloading" = Some [OB true; OB false; OB false].
+Proof. exact write_frame_nonvacuous. Qed.
